@@ -2,6 +2,7 @@ package rules
 
 import (
 	"fmt"
+	"go/types"
 	"sort"
 	"strings"
 
@@ -478,9 +479,10 @@ func treeLockAnalysis(c *Ctx) (*LockAnalysis, []string) {
 }
 
 type rawAccess struct {
-	what  string
-	base  string
-	write bool
+	what    string
+	base    string
+	write   bool
+	baseVal ssa.Value
 }
 
 // fieldOfShared resolves v (an address or loaded value chain) to owner.field of node/Tree.
@@ -504,10 +506,60 @@ func sharedField(c *Ctx, v ssa.Value) (what, base string, ok bool) {
 			case c.A.TreeT.Origin():
 				return "Tree." + an.FieldName(x.X.Type(), x.Field), an.AP(x.X), true
 			}
+			// any other struct type of the module: objects hanging off the tree (segments, …) are shared with it;
+			// whether a field is shared state is decided by who writes it (sharedTreeFields)
+			if o.Obj().Pkg() != nil && strings.HasPrefix(o.Obj().Pkg().Path(), an.ModulePath) && !isPtrToNamed(types.NewPointer(o), c.A.ContextT) {
+				return o.Obj().Name() + "." + an.FieldName(x.X.Type(), x.Field), an.AP(x.X), true
+			}
 			return "", "", false
 		}
 		return "", "", false
 	}
+}
+
+// sharedBase returns the object (ssa value) whose field v addresses.
+func sharedBase(v ssa.Value) ssa.Value {
+	for {
+		switch x := v.(type) {
+		case *ssa.UnOp:
+			v = x.X
+			continue
+		case *ssa.ChangeType:
+			v = x.X
+			continue
+		case *ssa.IndexAddr:
+			v = x.X
+			continue
+		case *ssa.FieldAddr:
+			return x.X
+		}
+		return nil
+	}
+}
+
+// constructionOnly: the object written is a parameter (or receiver) that is a fresh allocation at every call site
+// of the function — the write belongs to the construction of the object (helpers of a constructor).
+func constructionOnly(base ssa.Value, depth int) bool {
+	if base == nil || depth > 3 {
+		return false
+	}
+	if strings.HasPrefix(an.AP(base), "alloc:") {
+		return true
+	}
+	par, ok := base.(*ssa.Parameter)
+	if !ok {
+		return false
+	}
+	args := argsOfParam(par)
+	if len(args) == 0 {
+		return false
+	}
+	for _, a := range args {
+		if !constructionOnly(a, depth+1) {
+			return false
+		}
+	}
+	return true
 }
 
 // treeAccesses lists the accesses to node/Tree fields performed by one instruction.
@@ -517,36 +569,36 @@ func treeAccesses(c *Ctx, in ssa.Instruction) []rawAccess {
 	case *ssa.UnOp:
 		if fa, ok := x.X.(*ssa.FieldAddr); ok {
 			if what, base, ok := sharedField(c, fa); ok {
-				out = append(out, rawAccess{what, base, false})
+				out = append(out, rawAccess{what, base, false, sharedBase(fa)})
 			}
 		}
 	case *ssa.Store:
 		if fa, ok := x.Addr.(*ssa.FieldAddr); ok {
 			if what, base, ok := sharedField(c, fa); ok {
-				out = append(out, rawAccess{what, base, true})
+				out = append(out, rawAccess{what, base, true, sharedBase(fa)})
 			}
 		}
 		if ia, ok := x.Addr.(*ssa.IndexAddr); ok {
 			if what, base, ok := sharedField(c, ia.X); ok {
-				out = append(out, rawAccess{what, base, true})
+				out = append(out, rawAccess{what, base, true, sharedBase(ia.X)})
 			}
 		}
 	case *ssa.MapUpdate:
 		if what, base, ok := sharedField(c, x.Map); ok {
-			out = append(out, rawAccess{what, base, true})
+			out = append(out, rawAccess{what, base, true, sharedBase(x.Map)})
 		}
 	}
 	if call := an.CallOf(in); call != nil {
 		if b, ok := call.Value.(*ssa.Builtin); ok && (b.Name() == "delete" || b.Name() == "clear") {
 			if what, base, ok := sharedField(c, call.Args[0]); ok {
-				out = append(out, rawAccess{what, base, true})
+				out = append(out, rawAccess{what, base, true, sharedBase(call.Args[0])})
 			}
 		}
 		name := an.CalleeName(call)
 		for _, m := range inPlaceSliceMutators {
 			if name == m && len(call.Args) > 0 {
 				if what, base, ok := sharedField(c, call.Args[0]); ok {
-					out = append(out, rawAccess{what, base, true})
+					out = append(out, rawAccess{what, base, true, sharedBase(call.Args[0])})
 				}
 			}
 		}
@@ -564,7 +616,7 @@ func sharedTreeFields(c *Ctx) map[string]bool {
 	for f := range reach {
 		an.AllInstrs(f, func(in ssa.Instruction) {
 			for _, x := range treeAccesses(c, in) {
-				if x.write && !strings.HasPrefix(x.base, "alloc:") {
+				if x.write && !strings.HasPrefix(x.base, "alloc:") && !constructionOnly(x.baseVal, 0) {
 					shared[x.what] = true
 				}
 			}
@@ -583,4 +635,137 @@ func boundaryCall(call *ssa.CallCommon) bool {
 		return false
 	}
 	return true
+}
+
+// CheckSingleSection is C06.R4: an operation is one critical section. On no path does a function reachable from the
+// entry points acquire the lock again after it (or a callee) released it: what was read or validated in the first
+// section may no longer hold in the second (check-then-act), so the operation would not be atomic.
+func (la *LockAnalysis) CheckSingleSection(rule string, entries []*ssa.Function) {
+	c := la.c
+	g := an.NewGraph(c.P)
+	reach := g.Reach(entries, func(_ *ssa.Function, e an.Edge) bool { return e.Kind != "invoke" })
+	// hasSection: the function (transitively) acquires the lock
+	hasSection := map[*ssa.Function]bool{}
+	for changed := true; changed; {
+		changed = false
+		for _, f := range la.funcs {
+			if hasSection[f] {
+				continue
+			}
+			an.AllInstrs(f, func(in ssa.Instruction) {
+				if hasSection[f] {
+					return
+				}
+				if op, deferred, ok := la.lockCall(in); ok && !deferred && (op == "Lock" || op == "RLock") {
+					hasSection[f] = true
+					changed = true
+					return
+				}
+				if _, isClosure := in.(*ssa.MakeClosure); isClosure {
+					return
+				}
+				for _, callee := range callTargets(in) {
+					if hasSection[callee] {
+						hasSection[f] = true
+						changed = true
+					}
+				}
+			})
+		}
+	}
+	var fs []*ssa.Function
+	for f := range reach {
+		if hasSection[f] && len(f.Blocks) > 0 && an.IsLibrary(f) {
+			fs = append(fs, f)
+		}
+	}
+	sort.Slice(fs, func(i, j int) bool { return an.FuncKey(fs[i]) < an.FuncKey(fs[j]) })
+	for _, f := range fs {
+		deferredRelease := false
+		an.AllInstrs(f, func(x ssa.Instruction) {
+			d, ok := x.(*ssa.Defer)
+			if !ok {
+				return
+			}
+			if op, _, isLock := la.lockCall(x); isLock && (op == "Unlock" || op == "RUnlock") {
+				deferredRelease = true
+			}
+			if hc, isCall := d.Call.Value.(*ssa.Call); isCall {
+				if h := an.StaticCallee(&hc.Call); h != nil && la.acquires[h] > lockNone {
+					deferredRelease = true
+				}
+			}
+		})
+		const (
+			never = iota
+			held
+			released
+		)
+		in := map[*ssa.BasicBlock]int{f.Blocks[0]: never}
+		seen := map[*ssa.BasicBlock]bool{f.Blocks[0]: true}
+		work := []*ssa.BasicBlock{f.Blocks[0]}
+		var second ssa.Instruction
+		for len(work) > 0 {
+			b := work[0]
+			work = work[1:]
+			cur := in[b]
+			for _, ins := range b.Instrs {
+				acquire := false
+				release := false
+				if op, deferred, ok := la.lockCall(ins); ok && !deferred {
+					if op == "Lock" || op == "RLock" {
+						acquire = true
+					} else {
+						release = true
+					}
+				}
+				if _, isRD := ins.(*ssa.RunDefers); isRD && deferredRelease && cur == held {
+					release = true
+				}
+				if call, isCall := ins.(*ssa.Call); isCall {
+					if h := an.StaticCallee(&call.Call); h != nil && an.InModule(h) {
+						if la.acquires[h] > lockNone {
+							acquire = true
+						} else if hasSection[h] {
+							// a complete section inside the callee
+							if cur == released && second == nil {
+								second = ins
+							}
+							if cur == never {
+								cur = released
+							}
+						}
+					}
+				}
+				if acquire {
+					if cur == released && second == nil {
+						second = ins
+					}
+					cur = held
+				}
+				if release {
+					cur = released
+				}
+			}
+			for si, s := range b.Succs {
+				if la.prunedEdge(b, si) {
+					continue
+				}
+				if !seen[s] {
+					seen[s] = true
+					in[s] = cur
+					work = append(work, s)
+				} else if cur > in[s] {
+					in[s] = cur
+					work = append(work, s)
+				}
+			}
+		}
+		ok := second == nil
+		at := c.P.Pos(f.Pos())
+		if !ok {
+			at = c.pos(second)
+		}
+		c.R.Add(rule, c.fk(f), "one-critical-section", at, ok, ifelse(ok, "the lock is never taken again after it was released", "the "+la.name+" is released and then acquired again within one operation: what the first section read or validated can be changed by another goroutine before the second section acts on it (two registrations that each pass the ambiguity check can both be applied)"))
+	}
 }
